@@ -437,11 +437,12 @@ def ismult2_strategy(tier):
 def hat_strategy(tier):
     @st.composite
     def s(draw):
-        k = draw(st.sampled_from([3, 3, 6]))
+        k = draw(st.sampled_from([3, 3, 6, 1, 10]))
         batch = draw(st.sampled_from([0, 0, 2]))
         x = [[draw(C.ints(9)) for _ in range(k)] for _ in range(max(1, batch))]
         v = [draw(C.ints(9)) for _ in range(3)]
-        return {"k": k, "batch": batch, "x": x, "v": v, "form": draw(st.sampled_from(["array", "args"]))}
+        im = [[draw(C.ints(4)) for _ in range(k)] for _ in range(max(1, batch))] if draw(st.sampled_from([False, False, True])) else None
+        return {"k": k, "batch": batch, "x": x, "v": v, "form": draw(st.sampled_from(["array", "args"])), "im": im}
 
     return s()
 
@@ -450,15 +451,18 @@ def run_hat(case):
     k = case["k"]
     ck = Checker()
     X_ = np.array(case["x"])
+    if case.get("im"):
+        # Gaussian-integer entries: the matrix is skew-symmetric (not skew-Hermitian)
+        X_ = X_ + 1j * np.array(case["im"])
     if case["batch"] == 0:
         X_ = X_[0]
-    if case["form"] == "args" and case["batch"] == 0:
-        r, f = call("hat_matrix", U.hat_matrix, *[int(v) for v in X_])
+    if case["form"] == "args" and case["batch"] == 0 and k > 1:  # (a single positional argument is taken as the array of scalars)
+        r, f = call("hat_matrix", U.hat_matrix, *[(complex(v) if case.get("im") else int(v)) for v in X_])
     else:
         r, f = call("hat_matrix", U.hat_matrix, X_)
     if f:
         return [f]
-    n = 3 if k == 3 else 4
+    n = {1: 2, 3: 3, 6: 4, 10: 5}[k]
     ck.check(r.shape == X_.shape[:-1] + (n, n), "hat:shape", r.shape)
     if r.shape != X_.shape[:-1] + (n, n):
         return ck.result()
@@ -472,8 +476,10 @@ def run_hat(case):
             v = np.array(case["v"])
             ck.check(np.array_equal(m @ v, np.cross(v, x)), "hat:cross", (m.tolist(), case["v"]))
         else:
-            up = sorted(np.abs(m[np.triu_indices(4, 1)]).tolist())
-            ck.check(up == sorted(np.abs(x).tolist()), "hat:entries4", m.tolist())
+            up = m[np.triu_indices(n, 1)]
+            # every input scalar appears exactly once (up to sign) above the diagonal, without conjugation
+            key = lambda z: (round(abs(complex(z).real), 9), round(abs(complex(z).imag), 9), round((complex(z) * complex(z)).real, 9), round((complex(z) * complex(z)).imag, 9))  # noqa: E731
+            ck.check(sorted(key(z) for z in up) == sorted(key(z) for z in x), f"hat:entries{n}", m.tolist())
     return ck.result()
 
 
@@ -561,7 +567,7 @@ LAWS = [
         {"quick": 600, "thorough": 10000}, "is_multiple vs exact proportionality, symmetric, zero vector multiple of everything"),
     Law("is_multiple_axes2", ismult2_strategy, run_ismult2, lambda c: True, lambda c: [c["rel"]] + (["non-trailing-axes"] if c["batch"] >= 2 else []), {"quick": 200, "thorough": 3000},
         "is_multiple with two axes (matrix tensors), also non-trailing axis tuples with a batch axis in the middle or at the end", mandatory=("non-trailing-axes",)),
-    Law("hat_matrix", hat_strategy, run_hat, lambda c: True, lambda c: [f"k{c['k']}", c["form"]], {"quick": 200, "thorough": 3000},
+    Law("hat_matrix", hat_strategy, run_hat, lambda c: True, lambda c: [f"k{c['k']}", c["form"]] + (["complex"] if c.get("im") else []), {"quick": 300, "thorough": 3000},
         "hat_matrix documented layout, skew symmetry, hat(x) v = v x x"),
     Law("matmul_matvec_outer", mm_strategy, run_mm, lambda c: True, lambda c: ["complex" if c["cplx"] else "real"], {"quick": 150, "thorough": 2000},
         "matmul/matvec/outer vs explicit einsum incl. transpose/adjoint flags"),
